@@ -33,6 +33,19 @@ fn sample_bytes(rng: &mut Rng, enc: &str) -> Vec<u8> {
             // valid text in this encoding, maybe cut / corrupted
             let (_, t) = *rng.pick(TEXTS);
             let mut b = enc_bytes(t, enc).unwrap_or_else(|| t.as_bytes().to_vec());
+            if rng.chance(1, 4) {
+                // the text starts with / contains U+FEFF (for the Unicode encodings: their own byte-order mark),
+                // or the bytes start with the mark of some encoding
+                let special = *rng.pick(&["\u{feff}", "\u{feff}\u{feff}", "\u{fffe}", "a\u{feff}"]);
+                match enc_bytes(&format!("{}{}", special, t), enc) {
+                    Some(x) if rng.chance(2, 3) => b = x,
+                    _ => {
+                        let mut x = rng.pick(&[&b"\xef\xbb\xbf"[..], &b"\xff\xfe"[..], &b"\xfe\xff"[..], &b"\x84\x31\x95\x33"[..]]).to_vec();
+                        x.extend_from_slice(&b);
+                        b = x;
+                    }
+                }
+            }
             if rng.chance(1, 2) && !b.is_empty() {
                 let k = rng.range(0, b.len());
                 b.truncate(k);
@@ -142,7 +155,8 @@ pub fn run(thorough: bool, seed: u64, _replay: Option<String>) -> Report {
     // ---- (b) chunk mode: every window of valid UTF-8 that contains a complete character
     let n_texts = if thorough { 400 } else { 60 };
     for _ in 0..n_texts {
-        let pool: Vec<char> = "aé€😀ß中Ωz\u{7ff}\u{800}\u{ffff}\u{10000}\u{10ffff} \n".chars().collect();
+        // (U+FEFF, U+FFFE, U+FFFD, U+0000 included: characters a helper might be tempted to treat specially)
+        let pool: Vec<char> = "aé€😀ß中Ωz\u{7ff}\u{800}\u{ffff}\u{10000}\u{10ffff} \n\u{feff}\u{feff}\u{fffe}\u{fffd}\u{0}".chars().collect();
         let len = rng.range(1, 14);
         let text: String = (0..len).map(|_| *rng.pick(&pool)).collect();
         let bytes = text.as_bytes();
